@@ -178,7 +178,7 @@ SetDtls(s, t, new) ==
   IF s.dtls[t].st = new THEN s ELSE UpdConn([s EXCEPT !.dtls[t].st = new])
 
 SetChan(s, new) ==
-  IF s.chan \in {"none", new} THEN s
+  IF s.chan \in {"none", new} \/ (new = "open" /\ s.chan # "connecting") THEN s     \* a closed channel never reopens
   ELSE Emit([s EXCEPT !.chan = new], IF new = "open" THEN "channel:open" ELSE "channel:close")
 
 \* RTCRtpReceiver.__stop_decoder: the thread ends, puts None into the track queue, is joined
